@@ -37,7 +37,7 @@ inline Seg await(int n) { return Seg{true, Bytes(), n}; }
 
 struct ReqSpec {
   Bytes master;        // QQ ZZ PB SB NN D..
-  int kind = 0;        // 0 waited (harness owned), 1 self-deleting fire-and-forget
+  int kind = 0;        // 0 waited (harness owned), 1 self-deleting fire-and-forget, 2 the real PollRequest on a chained message
   int restarts = 0;    // notify() asks for a restart this many times
   int resubmits = 0;   // waiter re-submits after an error result this many times (sendAndWait emulation)
   bool late = false;   // not enqueued at start: offered as ENQUEUE alternative at every read
@@ -102,6 +102,7 @@ class Monitor {  // interface implemented by the property monitors
   virtual void onEnqueue(int req) {}
   virtual void onQuiescent(bool buffered) {}       // ebusd asks for input: everything consumed is processed; buffered = more received bytes are waiting
   virtual void onEnd() {}
+  virtual void onLivelock() {}                     // the run returned to one of its own states (nothing will ever change)
   virtual void onProbeStart() {}                   // A-mode: the fixed probe telegram starts now
   virtual void fingerprint(std::string* o) const {}
 };
@@ -186,7 +187,8 @@ class World {
   int16_t pendingTag = -1;
   // requests
   std::vector<MasterSymbolString> masters;
-  std::vector<TReq*> reqObj;       // nullptr once destroyed / not created
+  std::vector<BusRequest*> reqObj; // nullptr once destroyed / not created (TReq, or TPoll for kind 2)
+  void* pollCtx = nullptr;         // kind 2: message map with the chained poll message (BUSMC_WITH_POLL)
   std::vector<int> reqState;       // 0 not submitted, 1 submitted (in flight), 2 completed
   std::vector<int> resubmitsLeft;
   std::vector<int> lastResult;
